@@ -189,6 +189,7 @@ type C16Session struct {
 	Cmds     []string `json:"cmds"`
 	Resps    []string `json:"resps"`
 	WrongID  int      `json:"wrong_id_at"` // index of the exchange answered under a different id (-1: none)
+	Delta    int32    `json:"wrong_id_delta"`
 }
 
 type c16ServerLog struct {
@@ -230,7 +231,11 @@ func c16CheckSession(c C16Session) *pbt.Violation {
 			lg.cmds = append(lg.cmds, cmd)
 			if i == c.WrongID {
 				rc := conn.(*mcnet.RCONConn)
-				lg.err = rc.WritePacket(rc.ReqID+1, 0, c.Resps[i])
+				d := c.Delta
+				if d == 0 {
+					d = 1
+				}
+				lg.err = rc.WritePacket(rc.ReqID+d, 0, c.Resps[i])
 			} else {
 				lg.err = conn.RespCmd(c.Resps[i])
 			}
@@ -350,6 +355,7 @@ var c16Session = pbt.Register(pbt.Prop[C16Session]{
 		}
 		if len(c.Cmds) > 0 && rapid.IntRange(0, 3).Draw(t, "wrongid") == 2 {
 			c.WrongID = rapid.IntRange(0, len(c.Cmds)-1).Draw(t, "wrongat")
+			c.Delta = rapid.SampledFrom([]int32{1, -1, 2, 256, -2147483648, 65536, 7}).Draw(t, "delta")
 		}
 		return c
 	},
